@@ -13,7 +13,7 @@
 From Coq Require Import List String Bool.
 Import ListNotations.
 Require Import MV.Builtins.Binding MV.Builtins.Overload MV.Builtins.DocSigs MV.Builtins.BuiltinsCheck
-  MV.Builtins.OverloadProofs MV.Generated.C14_gen.
+  MV.Builtins.OverloadProofs MV.Generated.C14_gen MV.Builtins.ForwardingProofs.
 
 Theorem overload_forwards_same_call :
   forall b d, In b (supported table_gen) -> doc_of b = Some d -> conforms table_gen b = true ->
@@ -23,6 +23,6 @@ Theorem overload_forwards_same_call :
     good truthy (Some r) table_gen b d args (canon (kw_names (dsig d)) kv).
 Proof.
   intros b d I D C V truthy r E args kv. apply good_empty; [exact E|].
-  revert args kv. solve_all I D C.
+  exact (forwards_conforming b d I D C V truthy args kv).
 Qed.
 Print Assumptions overload_forwards_same_call.
